@@ -53,9 +53,10 @@ def searchLoop (s : Store) (v : View) (mode : SlMode) (volNode : Ino) :
           if it1.isLast then ⟨parent, some c, saved.getD it1, .exists⟩
           else ⟨parent, some c, saved.getD it1, .notdir⟩
         | some (.symlink _ link) =>
+          -- the unfollowed last link is the result: it is not charged to the budget (as the kernel)
+          if it1.isLast && mode == .lstat then ⟨parent, some c, saved.getD it1, .exists⟩ else
           let slCount := slCount + 1
           if slCount > slCountMax then ⟨parent, some c, saved.getD it1, .loop⟩ else
-          if it1.isLast && mode == .lstat then ⟨parent, some c, saved.getD it1, .exists⟩ else
           let saved := if it1.isLast && mode == .stat && saved.isNone then some it1 else saved
           match it1.replacePart .linux link with
           | none => ⟨parent, some c, saved.getD it1, .panic⟩
@@ -366,8 +367,13 @@ def removeAllRec (v : View) : Nat → Store → Ino → Store × Option Err
             let (s1, e) := removeAllRec v fuel s c
             match e with
             | some e => (s1, some e)
-            | none => go (removeChild (deleteNode s1 c) d nm) rest
-          | _ => go (removeChild (deleteNode s c) d nm) rest
+            | none =>
+              -- sticky bit of `d`: an entry of another user stays (checked once the sub-directory is empty, as rm -rf)
+              if restrictedDeletion s1 v d c then (s1, some .EPERM) else
+              go (removeChild (deleteNode s1 c) d nm) rest
+          | _ =>
+            if restrictedDeletion s v d c then (s, some .EPERM) else
+            go (removeChild (deleteNode s c) d nm) rest
     go s (s.names d)
 
 def removeAll (s : Store) (v : View) (path : Bytes) : Store × Out :=
